@@ -296,6 +296,26 @@ def gen():
     expect(any(assign_to(s, "root.bb") and u(s.value) == "AABB.infinite(self.dim)" for s in body), KD, fn,
            "root.bb = AABB.infinite(self.dim) not found")
     expect(any(u(s) == "self.n_pts, self.dim = points.shape" for s in body), KD, fn, "self.n_pts, self.dim = points.shape not found")
+    # does the constructor keep a private copy of the caller's array?  points = np.array(points) ; self.points = points
+    conv = [s for s in body if assign_to(s, "points")]
+    expect(len(conv) == 1 and isinstance(conv[0].value, ast.Call) and len(conv[0].value.args) == 1 and u(conv[0].value.args[0]) == "points",
+           KD, fn, "conversion of the input `points = np.<array|asarray>(points)` not recognised")
+    cf = T.dotted(conv[0].value.func)
+    kws = {k.arg: u(k.value) for k in conv[0].value.keywords}
+    if cf in ("np.array", "numpy.array") and kws.get("copy", "True") == "True" and set(kws) <= {"copy", "dtype"}:
+        ctor_copies = "true"
+    elif cf in ("np.asarray", "np.asanyarray", "np.ascontiguousarray", "numpy.asarray") or (cf in ("np.array", "numpy.array") and kws.get("copy") in ("False", "None")):
+        ctor_copies = "false"
+    else:
+        T.fail(KD, conv[0], "cannot tell whether the constructor copies its input")
+    stores = [s for s in body if assign_to(s, "self.points")]
+    expect(len(stores) == 1 and u(stores[0].value) == "points" and body.index(conv[0]) < body.index(stores[0]), KD, fn,
+           "self.points = points (after the conversion) not found")
+    for fq in ("KDTree._split_points", "KDTree.query", "KDTree.query_radius"):
+        for nn in ast.walk(T.find_def(tree, fq, KD)):
+            if isinstance(nn, (ast.Assign, ast.AugAssign)):
+                for tgt in (nn.targets if isinstance(nn, ast.Assign) else [nn.target]):
+                    expect(not u(tgt).startswith("self.points"), KD, nn, "%s writes to self.points" % fq)
     expect(any(u(s) == "queue = deque()" for s in body) and any(u(s) == "queue.append(root)" for s in body), KD, fn,
            "queue initialisation not recognised")
     loops = [s for s in body if isinstance(s, ast.While)]
@@ -360,6 +380,7 @@ def gen():
            KD, nl, "_new_leaf body changed")
     expect(any(u(s) == "self._nid = 0" for s in body) and any(u(s) == "self.nodes = []" for s in body), KD, fn, "self._nid = 0 / self.nodes = [] not found")
     out.append("(* kdtree.py KDTree.__init__ *)")
+    out.append("Definition ctor_copies_input : bool := %s." % ctor_copies)
     out.append("Definition root_axis : nat := %d%%nat." % root_axis)
     out.append("Definition leaf_ok (size max_leaf_size : nat) : bool := %s." % leaf_ok)
     out.append("Definition next_axis (axis dim : nat) : nat := %s." % next_axis)
